@@ -160,6 +160,33 @@ def args_forwarded(ev, fi, skip=1):
     return True, ""
 
 
+MUTATORS = ("pop", "popitem", "clear", "update", "setdefault", "remove", "append", "insert", "extend", "sort", "reverse", "__setitem__", "__delitem__")
+
+
+def params_mutated_before(path, ev, fi, skip=1):
+    """events before `ev` on this path that change one of fi's own parameter objects in place
+    (kwargs.pop(...), kwargs[k] = v, del kwargs[k], args.clear() ...): what is forwarded afterwards under the
+    parameter's name is no longer what the caller passed"""
+    ps = [("param", x) for x in list(fi.params[skip:]) + [fi.vararg, fi.kwarg] if x]
+    if fi.kwarg:
+        ps.append(("kw", (), ("param", fi.kwarg)))
+    if fi.vararg:
+        ps.append(("seq", (), ("param", fi.vararg), 0))
+    out = []
+    for e in path.events:
+        if e.seq >= ev.seq:
+            break
+        if e.kind == "call":
+            f = e.d["func"]
+            if isinstance(f, tuple) and f[0] == "attr" and f[1] in ps and f[2] in MUTATORS:
+                out.append((e, "%s.%s(...)" % (fmt(f[1]), f[2])))
+        elif e.kind in ("store", "del"):
+            t = e.d.get("target")
+            if isinstance(t, tuple) and t and t[0] == "sub" and t[1] in ps:
+                out.append((e, "%s %s" % ("del" if e.kind == "del" else "store into", fmt(t))))
+    return out
+
+
 def truth_of(path, term):
     """truth value this path took for `term` (from its branch history, which survives memo invalidation)"""
     out = None
